@@ -21,7 +21,9 @@ func VerifCtx(goos, goarch string, tags []string) *build.Context {
 }
 
 // VerifSkipFile exposes skipFile.
-func VerifSkipFile(ctx *build.Context, p string, skipTest bool) bool { return skipFile(ctx, p, skipTest) }
+func VerifSkipFile(ctx *build.Context, p string, skipTest bool) bool {
+	return skipFile(ctx, p, skipTest)
+}
 
 // VerifBuildLineOk exposes buildLineOk; panicked reports a host panic.
 func VerifBuildLineOk(ctx *build.Context, line string) (ok, panicked bool) {
